@@ -50,7 +50,7 @@ Print Assumptions C15_dechunk_agrees_ref_bytes.
    assumed law gunz (gz x) = x.  The stored body is the new data, compressed iff the message says
    "Content-Encoding: gzip" (then it decompresses to the data; any other Content-Encoding header is
    removed); Content-Type is set; a chunked message keeps no Content-Length (the body stays decoded,
-   it is chunk-encoded once, by build: see C15_update_body_rebuild_*), any other message announces
+   it is chunk-encoded once, by build: see C15_update_rebuild below), any other message announces
    exactly the stored length. *)
 Theorem C15_update_body : forall (gz gunz : bytes -> bytes), (forall x, gunz (gz x) = x) ->
   forall p data ct, headers_wf p ->
